@@ -162,6 +162,69 @@ class Rx:
         finally:
             if consumed:
                 del buffer[:consumed]
+
+class Chan:
+    async def drain(self):
+        yield 1
+
+    async def good(self, pkt):
+        got = []
+        async for x in self.drain():
+            got.append(x)
+        self.log(len(got))
+        self.write(pkt)
+        return got
+
+    async def bad(self, pkt):
+        got = []
+        async for x in self.drain():
+            got.append(x)
+        await self.settle()
+        self.write(pkt)
+        return got
+
+    async def bad_branch(self, pkt, slow):
+        got = [x async for x in self.drain()]
+        if slow:
+            async with self.lock:
+                pass
+        self.write(pkt)
+        return got
+
+    async def cache_ok(self, cred):
+        await self.handshake(cred)
+        self.cred = cred
+        await self.settle()
+
+    async def cache_late(self, cred):
+        await self.handshake(cred)
+        await self.settle()
+        self.cred = cred
+
+    async def no_handshake(self, cred):
+        await self.settle()
+        self.cred = cred
+
+class Tmpl:
+    def __init__(self, a, b):
+        self.a = a
+
+def lazy(names):
+    t = None
+    out = []
+    for n in names:
+        if t is None:
+            t = Tmpl(0, 0)
+        out.append(getattr(t, n))
+    return out
+
+def lazy_mutated(names):
+    t = None
+    for n in names:
+        if t is None:
+            t = Tmpl(0, 0)
+        t.poke(n)
+    return t
 '''
 
 
@@ -312,6 +375,24 @@ def main() -> int:
         before = ast.unparse(same["msmart/lan.py"])
         moves.undo(same), moves.undo_signatures(same), moves.undo_extractions(same), moves.undo_result_ownership(same)
         check("moves:identity-on-reference-shape", ast.unparse(same["msmart/lan.py"]) == before)
+        # E9: suspension points between a start event and a target (atomic sections)
+        from .atomic import sections, self_call, simple, stores_self_attr
+
+        def drain_(n):
+            return (isinstance(n, ast.AsyncFor) and self_call(n.iter, "drain")) or (simple(n) and self_call(n, "drain"))
+        for fn, want in (("Chan.good", 0), ("Chan.bad", 1), ("Chan.bad_branch", 1)):
+            sec = sections(prog, prog.func(q + fn), drain_, lambda n: simple(n) and self_call(n, "write"))
+            check(f"atomic:{fn}", len(sec) == 1 and all(len(v) == want for v in sec.values()))
+        for fn, want in (("Chan.cache_ok", 0), ("Chan.cache_late", 1), ("Chan.no_handshake", 0)):
+            sec = sections(prog, prog.func(q + fn), lambda n: simple(n) and self_call(n, "handshake"), lambda n: stores_self_attr(n, ("cred",)))
+            check(f"atomic:{fn}", len(sec) == 1 and all(len(v) == want for v in sec.values()))
+        sec = sections(prog, prog.func(q + "Chan.no_handshake"), None, lambda n: stores_self_attr(n, ("cred",)), from_entry=True)
+        check("atomic:from-entry", len(sec) == 1 and all(len(v) == 1 for v in sec.values()))
+        # desugar: a read-only object built on first use is the object built where it is used; one that is handed a method call is left alone
+        lz = ast.unparse(prog.func(q + "lazy").node)
+        lm = ast.unparse(prog.func(q + "lazy_mutated").node)
+        check("desugar:lazy-template", "if t is None" not in lz and "t = Tmpl(0, 0)" in lz)
+        check("desugar:lazy-template-mutated-kept", "if t is None" in lm)
     finally:
         shutil.rmtree(tmp, ignore_errors=True)
     if fails:
